@@ -292,6 +292,9 @@ def encode_coder(spec: dict, data: bytes, password=None, rng=None):
     m = spec["m"]
     if m == "COPY":
         return M_COPY, None, data
+    if m == "RAWID":
+        # a coder known by its id only (ARM64 0a, RISC-V 0b, ...): for statements about structure; nobody here can decode it
+        return bytes.fromhex(spec["id"]), spec.get("props"), data
     if m == "LZMA":
         f = {"id": lzma.FILTER_LZMA1, "preset": spec.get("preset", 1)}
         for k in ("lc", "lp", "pb", "dict_size"):
